@@ -10,12 +10,15 @@ Mirrors the Go code function by function:
     traversalsWithBlocksInProgress             ->   .refcount     (link -> count)
     New / BlockRefCount / IsKnownMissingLink   -> {} / blockRefCount / isKnownMissing
     RecordLinkTraversal / FinishRequest / Empty-> record / finishRequest / isEmpty
+    MoveRequest                                -> moveRequest
 
   responseassembler.peerLinkTracker            -> PeerTracker
     linkTracker / altTrackers / dedupKeys / blockSentCount / skipFirstBlocks
                                                ->   .main / .alts / .dedupKeys / .sentCount / .skipFirst
     getLinkTracker                             -> trackerOf (+ setTracker: Go mutates through the pointer)
-    DedupKey / IgnoreBlocks / SkipFirstBlocks  -> dedupKey / ignoreBlocks / skipFirstBlocks
+    DedupKey                                   -> setDedupKey  (`dedupKey` = its middle part: assign the
+                                                  key, create the bucket; `dropTrackerIfUnused` = helper)
+    IgnoreBlocks / SkipFirstBlocks             -> ignoreBlocks / skipFirstBlocks
     FinishTracking                             -> finishTracking   (FinishRequest, FinishWithError and
                                                   ClearRequest of the builder / stream all end here)
     RecordLinkTraversal                        -> traverse  (returns (sendBlock, blockIndex))
@@ -97,6 +100,14 @@ def finishRequest (t : LinkTracker) (r : Req) : LinkTracker × Bool :=
   | some links =>
     ({ t1 with refcount := links.foldl decRef t1.refcount, linksByReq := aerase t1.linksByReq r }, hasAll)
 
+/-- `MoveRequest`: everything recorded for `r` is recorded again in `to` (with-block links in order,
+    then the missing links; Go iterates the missing set in map order, the model in list order — only
+    membership is observable) and `r` is finished here.  Returns (this tracker, `to`) afterwards. -/
+def moveRequest (t : LinkTracker) (r : Req) (to : LinkTracker) : LinkTracker × LinkTracker :=
+  let to1 := ((aget t.linksByReq r).getD []).foldl (fun a l => a.record r l true) to
+  let to2 := ((aget t.missing r).getD []).foldl (fun a l => a.record r l false) to1
+  ((t.finishRequest r).1, to2)
+
 /-- `Empty` -/
 def isEmpty (t : LinkTracker) : Bool := t.missing.isEmpty && t.refcount.isEmpty
 
@@ -132,11 +143,28 @@ def trackerOf (p : PeerTracker) (r : Req) : LinkTracker := p.scopeTracker (aget 
 def setTracker (p : PeerTracker) (r : Req) (t : LinkTracker) : PeerTracker :=
   p.setScopeTracker (aget p.dedupKeys r) t
 
-/-- `DedupKey` -/
+/-- the part of `DedupKey` that assigns the key and creates the bucket if it does not exist -/
 def dedupKey (p : PeerTracker) (r : Req) (k : Key) : PeerTracker :=
   { p with
     dedupKeys := aset p.dedupKeys r k
     alts := if (aget p.alts k).isSome then p.alts else aset p.alts k {} }
+
+/-- `dropTrackerIfUnused` -/
+def dropTrackerIfUnused (p : PeerTracker) (k : Key) : PeerTracker :=
+  if p.dedupKeys.any (fun e => e.2 == k) then p else { p with alts := aerase p.alts k }
+
+/-- `DedupKey`: no-op when the request already has this key; otherwise assign the key, move what the
+    request recorded so far from its old tracker into the bucket, drop the old bucket if unused. -/
+def setDedupKey (p : PeerTracker) (r : Req) (k : Key) : PeerTracker :=
+  let old := aget p.dedupKeys r
+  if old = some k then p else
+  let oldT := p.scopeTracker old
+  let p1 := p.dedupKey r k
+  let (oldT', newT') := oldT.moveRequest r (p1.scopeTracker (some k))
+  let p2 := (p1.setScopeTracker old oldT').setScopeTracker (some k) newT'
+  match old with
+  | some k0 => p2.dropTrackerIfUnused k0
+  | none => p2
 
 /-- `IgnoreBlocks` -/
 def ignoreBlocks (p : PeerTracker) (r : Req) (ls : List Link) : PeerTracker :=
@@ -190,7 +218,7 @@ inductive Out where
 deriving Repr, DecidableEq
 
 def step (p : PeerTracker) : Op → PeerTracker × Out
-  | .dedup r k => (p.dedupKey r k, .ok)
+  | .dedup r k => (p.setDedupKey r k, .ok)
   | .ignore r ls => (p.ignoreBlocks r ls, .ok)
   | .skip r n => (p.skipFirstBlocks r n, .ok)
   | .trav r l b => let (p', s, i) := p.traverse r l b; (p', .sent s i)
